@@ -34,7 +34,7 @@ sys.path.insert(0, REPO)
 
 from drive_codec import CallTimeout, _alarm, innermost_site  # noqa: E402
 
-FILLERS = ["", " ", "  ", "\t", "\n", "--c\n", "--c--", "/*c*/", "/*a/*b*/c*/", "/*c\nd*/"]   # = Layout!Fillers
+FILLERS = ["", " ", "  ", "\t", "\n", "--c\n", "--c--", "/*c*/", "/*a/*b*/c*/", "/*c\nd*/", "\r\n"]   # = Layout!Fillers
 PARSE_TIMEOUT = int(os.environ.get('VERIF_PARSE_TIMEOUT', '600'))
 
 
@@ -189,6 +189,11 @@ def mode_masks(a):
             out.write(json.dumps(c) + '\n')
 
 
+def lines_of(s):
+    """A text as the list of its lines, each with its new-line (TLC handles long texts line by line)."""
+    return re.findall(r'[^\n]*\n|[^\n]+', s)
+
+
 def cut_like(lines, s):
     """Cut s into pieces of the lengths of `lines` (s has the length of their concatenation)."""
     out, p = [], 0
@@ -203,7 +208,7 @@ def mode_texts(a):
     with open(a.out, 'w') as out:
         for c in read_cases(a.cases, a.shard):
             text = c['text']
-            lines = re.findall(r'[^\n]*\n|[^\n]+', text)      # every line with its new-line
+            lines = lines_of(text)
             o = guarded(lambda: parser.ignore_comments(text), 120)
             if o['st'] == 'ok':
                 r = o.pop('r')
@@ -267,7 +272,7 @@ def mode_tokenize(a):
                     'wid': '%s@%d' % (tid, off), 'tid': tid, 'off': off,
                     'toks': toks[off:hi], 'fill0': fill[off:hi - 1],
                     'bfs': bool(c.get('bfs')),
-                    'inj': len(text) <= a.injmax and o0['st'] == 'ok',
+                    'inj': off == 0 and items[0][1] <= a.injmax and len(text) <= 40000 and o0['st'] == 'ok',
                     'ntok': n, 'parse0': o0['st']}) + '\n')
 
 
@@ -314,7 +319,7 @@ def mode_layout(a):
             toks = list(w['toks'])
             lo, hi = items[off][1], items[off + len(toks) - 1][2]
             lead, trail = text[:lo], text[hi:]
-            line = {'cid': c['cid'], 'k': 'layout', 'wid': c['wid'], 'toks': toks, 'worig': text[lo:hi], 'o0': og['o0'],
+            line = {'cid': c['cid'], 'k': 'layout', 'wid': c['wid'], 'toks': toks, 'worig': lines_of(text[lo:hi]), 'o0': og['o0'],
                     'cases': []}
             for sc in c['scheds']:
                 fill = list(w['fill0'])
@@ -323,7 +328,7 @@ def mode_layout(a):
                 if sc['ik'] == 0:
                     wnew = render(toks, fill)
                     o1, d1 = parse_outcome(asn1tools, lead + wnew + trail)
-                    line['cases'].append({'id': sc['id'], 'ch': sc['ch'], 'wnew': wnew, 'o1': o1,
+                    line['cases'].append({'id': sc['id'], 'ch': sc['ch'], 'wnew': lines_of(wnew), 'o1': o1,
                                           'same': bool(og['o0']['st'] == 'ok' and o1['st'] == 'ok' and d1 == og['d0'])})
                     continue
                 # syntax error at token ik: L0 = the original with its comments blanked by the model,
@@ -347,8 +352,9 @@ def mode_layout(a):
                 l1, _ = parse_outcome(asn1tools, t1)
                 out.write(json.dumps({
                     'cid': '%s-e%s' % (c['cid'], sc['id']), 'k': 'errline', 'wid': c['wid'], 'toks': t2, 'ik': sc['ik'],
-                    'ikind': sc['ikind'], 'lead0': lead0, 'f0': f0, 'trail0': trail0, 'lead1': lead, 'f1': f1, 'trail1': trail,
-                    't0': t0, 't1': t1, 'l0': l0, 'l1': l1, 'ch': sc['ch'],
+                    'ikind': sc['ikind'], 'lead0': lines_of(lead0), 'f0': [lines_of(x) for x in f0], 'trail0': lines_of(trail0),
+                    'lead1': lines_of(lead), 'f1': [lines_of(x) for x in f1], 'trail1': lines_of(trail),
+                    't0': lines_of(t0), 't1': lines_of(t1), 'l0': l0, 'l1': l1, 'ch': sc['ch'],
                     'attail': off + len(toks) == len(items)}) + '\n')
             if line['cases']:
                 out.write(json.dumps(line) + '\n')
@@ -368,7 +374,7 @@ def main():
     ap.add_argument('--seed', type=int, default=1)
     ap.add_argument('--window', type=int, default=120)
     ap.add_argument('--windows', type=int, default=3)
-    ap.add_argument('--injmax', type=int, default=12000)
+    ap.add_argument('--injmax', type=int, default=3000)
     a = ap.parse_args()
     sys.setrecursionlimit(10000)
     {'masks': mode_masks, 'texts': mode_texts, 'tokenize': mode_tokenize, 'layout': mode_layout}[a.mode](a)
